@@ -34,7 +34,7 @@ type Explorer struct {
 	EnvKinds     map[string]bool // enabled environment choice kinds
 	Racy         map[string]bool
 	RaceDetect   bool
-	FineLoops    bool // loop iterations of instrumented code are scheduling points
+	FineLoops    bool  // loop iterations of instrumented code are scheduling points
 	MaxExec      int64 // cap on executions (0 = none)
 	MaxSteps     int
 	// Owned decides, for a node at ShardDepth deviations, whether this worker
@@ -62,8 +62,12 @@ type Stats struct {
 	// Nondeterministic is set when replaying the default schedule twice gave two
 	// different executions (an uncaptured source of nondeterminism: harness defect).
 	Nondeterministic bool
-	Races            map[string]vrt.Race
-	obs              map[string]int64
+	// WarmStart: the first execution differed from the second and third, which agreed
+	// (process-wide state of the code under test filled by the first execution); the
+	// exploration continued from the warm state.
+	WarmStart bool
+	Races     map[string]vrt.Race
+	obs       map[string]int64
 }
 
 func (s *Stats) Observations() map[string]int64 { return s.obs }
@@ -111,7 +115,27 @@ func (x *Explorer) explore(prefix []int, depth int, owned bool) {
 		// determinism self-check: the same (empty) prefix must give the same execution
 		res2, v2 := x.runOnce(prefix)
 		if Signature(res2) != Signature(res) || v2.Clause != v.Clause {
-			x.Stats.Nondeterministic = true
+			// The code under test may keep process-wide state that the first execution
+			// fills (a cache of compiled patterns, a lazily built table): the first
+			// execution then differs from all later ones. A third execution decides: if
+			// it agrees with the second, the scenario is explored from the warm state
+			// (WarmStart is reported); if not, the nondeterminism is real.
+			res3, v3 := x.runOnce(prefix)
+			if Signature(res3) != Signature(res2) || v3.Clause != v2.Clause {
+				x.Stats.Nondeterministic = true
+			} else {
+				x.Stats.WarmStart = true
+				// the cold execution is judged too (it is an execution of the default schedule)
+				if x.OnExec != nil && res.Diverged == "" && !res.Deadline {
+					x.Stats.Executions++
+					x.Stats.obs[v.Obs]++
+					for _, r := range res.Races {
+						x.Stats.Races[r.Loc+"|"+r.SiteA+"|"+r.SiteB] = r
+					}
+					x.OnExec(choicesOf(res.Points), res, v)
+				}
+				res, v = res3, v3
+			}
 		}
 	}
 	if res.Diverged != "" {
